@@ -43,6 +43,48 @@ limitations under the License.
 namespace libcellml {
 
 /**
+ * @brief Escape the characters that cannot appear verbatim in an XML attribute value.
+ *
+ * The printer assembles the document as text: attribute values taken from the model
+ * (names, identifiers, references, initial values, interface types, hrefs) must have
+ * their markup characters replaced by the predefined entities.
+ *
+ * @param value The attribute value.
+ *
+ * @return The escaped attribute value.
+ */
+std::string escapeXmlAttribute(const std::string &value)
+{
+    if (value.find_first_of("&<>\"") == std::string::npos) {
+        return value;
+    }
+
+    std::string escaped;
+    escaped.reserve(value.size() + 8);
+    for (const char &c : value) {
+        switch (c) {
+        case '&':
+            escaped += "&amp;";
+            break;
+        case '<':
+            escaped += "&lt;";
+            break;
+        case '>':
+            escaped += "&gt;";
+            break;
+        case '"':
+            escaped += "&quot;";
+            break;
+        default:
+            escaped += c;
+            break;
+        }
+    }
+    return escaped;
+}
+
+
+/**
  * @brief The Printer::PrinterImpl struct.
  *
  * The private implementation for the Printer class.
@@ -64,11 +106,11 @@ public:
 
 std::string printMapVariables(const VariablePairPtr &variablePair, IdList &idList, bool autoIds)
 {
-    std::string mapVariables = "<map_variables variable_1=\"" + variablePair->variable1()->name() + "\""
-                               + " variable_2=\"" + variablePair->variable2()->name() + "\"";
+    std::string mapVariables = "<map_variables variable_1=\"" + escapeXmlAttribute(variablePair->variable1()->name()) + "\""
+                               + " variable_2=\"" + escapeXmlAttribute(variablePair->variable2()->name()) + "\"";
     std::string mappingId = Variable::equivalenceMappingId(variablePair->variable1(), variablePair->variable2());
     if (!mappingId.empty()) {
-        mapVariables += " id=\"" + mappingId + "\"";
+        mapVariables += " id=\"" + escapeXmlAttribute(mappingId) + "\"";
     } else if (autoIds) {
         mapVariables += " id=\"" + makeUniqueId(idList) + "\"";
     }
@@ -115,12 +157,12 @@ std::string printConnections(const ComponentMap &componentMap, const VariableMap
             ++componentMapIndex2;
         }
         // Serialise out the new connection.
-        connections += "<connection component_1=\"" + currentComponent1->name() + "\"";
+        connections += "<connection component_1=\"" + escapeXmlAttribute(currentComponent1->name()) + "\"";
         if (currentComponent2 != nullptr) {
-            connections += " component_2=\"" + currentComponent2->name() + "\"";
+            connections += " component_2=\"" + escapeXmlAttribute(currentComponent2->name()) + "\"";
         }
         if (!connectionId.empty()) {
-            connections += " id=\"" + connectionId + "\"";
+            connections += " id=\"" + escapeXmlAttribute(connectionId) + "\"";
         } else if (autoIds) {
             connections += " id=\"" + makeUniqueId(idList) + "\"";
         }
@@ -209,10 +251,10 @@ std::string Printer::PrinterImpl::printUnits(const UnitsPtr &units, IdList &idLi
         repr += "<units";
         std::string unitsName = units->name();
         if (!unitsName.empty()) {
-            repr += " name=\"" + unitsName + "\"";
+            repr += " name=\"" + escapeXmlAttribute(unitsName) + "\"";
         }
         if (!units->id().empty()) {
-            repr += " id=\"" + units->id() + "\"";
+            repr += " id=\"" + escapeXmlAttribute(units->id()) + "\"";
         } else if (autoIds) {
             repr += " id=\"" + makeUniqueId(idList) + "\"";
         }
@@ -234,11 +276,11 @@ std::string Printer::PrinterImpl::printUnits(const UnitsPtr &units, IdList &idLi
                     repr += " multiplier=\"" + convertToString(multiplier) + "\"";
                 }
                 if (!prefix.empty()) {
-                    repr += " prefix=\"" + prefix + "\"";
+                    repr += " prefix=\"" + escapeXmlAttribute(prefix) + "\"";
                 }
-                repr += " units=\"" + reference + "\"";
+                repr += " units=\"" + escapeXmlAttribute(reference) + "\"";
                 if (!id.empty()) {
-                    repr += " id=\"" + id + "\"";
+                    repr += " id=\"" + escapeXmlAttribute(id) + "\"";
                 } else if (autoIds) {
                     repr += " id=\"" + makeUniqueId(idList) + "\"";
                 }
@@ -262,10 +304,10 @@ std::string Printer::PrinterImpl::printComponent(const ComponentPtr &component, 
         repr += "<component";
         std::string componentName = component->name();
         if (!componentName.empty()) {
-            repr += " name=\"" + componentName + "\"";
+            repr += " name=\"" + escapeXmlAttribute(componentName) + "\"";
         }
         if (!component->id().empty()) {
-            repr += " id=\"" + component->id() + "\"";
+            repr += " id=\"" + escapeXmlAttribute(component->id()) + "\"";
         } else if (autoIds) {
             repr += " id=\"" + makeUniqueId(idList) + "\"";
         }
@@ -312,10 +354,10 @@ std::string Printer::PrinterImpl::printEncapsulation(const ComponentPtr &compone
     std::string componentName = component->name();
     std::string repr = "<component_ref";
     if (!componentName.empty()) {
-        repr += " component=\"" + componentName + "\"";
+        repr += " component=\"" + escapeXmlAttribute(componentName) + "\"";
     }
     if (!component->encapsulationId().empty()) {
-        repr += " id=\"" + component->encapsulationId() + "\"";
+        repr += " id=\"" + escapeXmlAttribute(component->encapsulationId()) + "\"";
     } else if (autoIds) {
         repr += " id=\"" + makeUniqueId(idList) + "\"";
     }
@@ -344,19 +386,19 @@ std::string Printer::PrinterImpl::printVariable(const VariablePtr &variable, IdL
     std::string initial_value = variable->initialValue();
     std::string interface_type = variable->interfaceType();
     if (!name.empty()) {
-        repr += " name=\"" + name + "\"";
+        repr += " name=\"" + escapeXmlAttribute(name) + "\"";
     }
     if (!units.empty()) {
-        repr += " units=\"" + units + "\"";
+        repr += " units=\"" + escapeXmlAttribute(units) + "\"";
     }
     if (!initial_value.empty()) {
-        repr += " initial_value=\"" + initial_value + "\"";
+        repr += " initial_value=\"" + escapeXmlAttribute(initial_value) + "\"";
     }
     if (!interface_type.empty()) {
-        repr += " interface=\"" + interface_type + "\"";
+        repr += " interface=\"" + escapeXmlAttribute(interface_type) + "\"";
     }
     if (!id.empty()) {
-        repr += " id=\"" + id + "\"";
+        repr += " id=\"" + escapeXmlAttribute(id) + "\"";
     } else if (autoIds) {
         repr += " id=\"" + makeUniqueId(idList) + "\"";
     }
@@ -373,7 +415,7 @@ std::string Printer::PrinterImpl::printResetChild(const std::string &childLabel,
     if (!childId.empty() || !math.empty()) {
         repr += "<" + childLabel;
         if (!childId.empty()) {
-            repr += " id=\"" + childId + "\"";
+            repr += " id=\"" + escapeXmlAttribute(childId) + "\"";
         } else if (autoIds) {
             repr += " id=\"" + makeUniqueId(idList) + "\"";
         }
@@ -397,16 +439,16 @@ std::string Printer::PrinterImpl::printReset(const ResetPtr &reset, IdList &idLi
     bool hasChild = false;
 
     if (variable) {
-        repr += " variable=\"" + variable->name() + "\"";
+        repr += " variable=\"" + escapeXmlAttribute(variable->name()) + "\"";
     }
     if (testVariable) {
-        repr += " test_variable=\"" + testVariable->name() + "\"";
+        repr += " test_variable=\"" + escapeXmlAttribute(testVariable->name()) + "\"";
     }
     if (reset->isOrderSet()) {
         repr += " order=\"" + convertToString(reset->order()) + "\"";
     }
     if (!rid.empty()) {
-        repr += " id=\"" + rid + "\"";
+        repr += " id=\"" + escapeXmlAttribute(rid) + "\"";
     } else if (autoIds) {
         repr += " id=\"" + makeUniqueId(idList) + "\"";
     }
@@ -458,9 +500,9 @@ std::string Printer::PrinterImpl::printImports(const ModelPtr &model, IdList &id
         }
     }
     for (auto &importSource : collatedImportSources) {
-        repr += "<import xmlns:xlink=\"http://www.w3.org/1999/xlink\" xlink:href=\"" + importSource->url() + "\"";
+        repr += "<import xmlns:xlink=\"http://www.w3.org/1999/xlink\" xlink:href=\"" + escapeXmlAttribute(importSource->url()) + "\"";
         if (!importSource->id().empty()) {
-            repr += " id=\"" + importSource->id() + "\"";
+            repr += " id=\"" + escapeXmlAttribute(importSource->id()) + "\"";
         } else if (autoIds) {
             repr += " id=\"" + makeUniqueId(idList) + "\"";
         }
@@ -468,9 +510,9 @@ std::string Printer::PrinterImpl::printImports(const ModelPtr &model, IdList &id
 
         for (const UnitsPtr &units : importedUnits) {
             if (units->importSource() == importSource) {
-                repr += "<units units_ref=\"" + units->importReference() + "\" name=\"" + units->name() + "\"";
+                repr += "<units units_ref=\"" + escapeXmlAttribute(units->importReference()) + "\" name=\"" + escapeXmlAttribute(units->name()) + "\"";
                 if (!units->id().empty()) {
-                    repr += " id=\"" + units->id() + "\"";
+                    repr += " id=\"" + escapeXmlAttribute(units->id()) + "\"";
                 } else if (autoIds) {
                     repr += " id=\"" + makeUniqueId(idList) + "\"";
                 }
@@ -479,9 +521,9 @@ std::string Printer::PrinterImpl::printImports(const ModelPtr &model, IdList &id
         }
         for (const ComponentPtr &component : importedComponents) {
             if (component->importSource() == importSource) {
-                repr += "<component component_ref=\"" + component->importReference() + "\" name=\"" + component->name() + "\"";
+                repr += "<component component_ref=\"" + escapeXmlAttribute(component->importReference()) + "\" name=\"" + escapeXmlAttribute(component->name()) + "\"";
                 if (!component->id().empty()) {
-                    repr += " id=\"" + component->id() + "\"";
+                    repr += " id=\"" + escapeXmlAttribute(component->id()) + "\"";
                 } else if (autoIds) {
                     repr += " id=\"" + makeUniqueId(idList) + "\"";
                 }
@@ -529,10 +571,10 @@ std::string Printer::printModel(const ModelPtr &model, bool autoIds)
     std::string repr;
     repr += "<?xml version=\"1.0\" encoding=\"UTF-8\"?><model xmlns=\"http://www.cellml.org/cellml/2.0#\"";
     if (!model->name().empty()) {
-        repr += " name=\"" + model->name() + "\"";
+        repr += " name=\"" + escapeXmlAttribute(model->name()) + "\"";
     }
     if (!model->id().empty()) {
-        repr += " id=\"" + model->id() + "\"";
+        repr += " id=\"" + escapeXmlAttribute(model->id()) + "\"";
     } else if (autoIds) {
         repr += " id=\"" + makeUniqueId(idList) + "\"";
     }
@@ -572,7 +614,7 @@ std::string Printer::printModel(const ModelPtr &model, bool autoIds)
     if (!componentEncapsulation.empty()) {
         repr += "<encapsulation";
         if (!model->encapsulationId().empty()) {
-            repr += " id=\"" + model->encapsulationId() + "\">";
+            repr += " id=\"" + escapeXmlAttribute(model->encapsulationId()) + "\">";
         } else if (autoIds) {
             repr += " id=\"" + makeUniqueId(idList) + "\">";
         } else {
